@@ -163,6 +163,11 @@ def run_one(choices, params):
                 raise
             finally:
                 box["ended"] = True
+        if transport == "tcp" and c.draw(2):
+            # knob: the registry process may hold only a few descriptors (it needs two: the listener and the client being served);
+            # whatever it forgets to close stops it from accepting anybody after a handful of requests instead of after ~1000
+            k.fd_limit["10.1.0.100"] = 4 + c.draw(3)
+            sim.count("c18:registry-descriptor-limit")
         stask = sim.spawn(serve, _name="registry", _host="10.1.0.100")
         sim.sleep(0.125)
 
